@@ -11,6 +11,8 @@
 (*                         (the harness writes n into the SendCall record    *)
 (*                         once it is known: a prophecy that only spares TLC *)
 (*                         guessing the order of concurrent nextSeqno calls) *)
+(*                         fail = TRUE: the publisher was made to return an  *)
+(*                         error for the call's own publication attempt      *)
 (*   DeliverCall/Ret(c, m) around a synchronous re-publication of message m  *)
 (*                         (what the RetransmitFn does)                      *)
 (*   Tick                  before a retransmission tick is fed: every        *)
@@ -67,6 +69,7 @@ InitPrimed ==
     /\ ninv' = [h \in Handlers |-> [m \in Msgs |-> 0]]
     /\ stale' = [h \in Handlers |-> FALSE]
     /\ acc' = [h \in Handlers |-> {}]
+    /\ book' = [calls |-> [s \in Senders |-> 0], tagged |-> [m \in Msgs |-> {}], fails |-> 0]
     /\ regP' = [h \in Handlers |-> "idle"]
     /\ canP' = [h \in Handlers |-> "idle"]
     /\ sc' = {}
@@ -111,7 +114,8 @@ TCancelRet ==
 ---- \* senders
 TSendCall ==
     /\ IsEvent("SendCall")
-    /\ sc' = sc \cup {[c |-> Ev.c, s |-> Ev.s, m |-> [s |-> Ev.s, n |-> Ev.n], st |-> "called"]}
+    /\ sc' = sc \cup {[c |-> Ev.c, s |-> Ev.s, m |-> [s |-> Ev.s, n |-> Ev.n], st |-> "called",
+                        fail |-> Field(Ev, "fail", FALSE)]}
     /\ UNCHANGED <<vars, chkOn, regP, canP>>
 \* nextSeqno inside Send
 SAlloc(p) ==
@@ -120,7 +124,8 @@ SAlloc(p) ==
     /\ UNCHANGED <<l, chkOn, regP, canP>>
 \* the publication made by the call itself
 SStart(p) ==
-    /\ p \in sc /\ p.st = "alloc" /\ StartDeliverC(p.m, p.c)
+    /\ p \in sc /\ p.st = "alloc"
+    /\ IF p.fail THEN FailPublish(p.m) ELSE StartDeliverC(p.m, p.c)   \* fail: the publisher returned an error
     /\ sc' = (sc \ {p}) \cup {[p EXCEPT !.st = "started"]}
     /\ UNCHANGED <<l, chkOn, regP, canP>>
 Finished(p) == p.st = "started" /\ \A d \in dl : d.c # p.c
@@ -133,8 +138,8 @@ TSendRet ==
 TDeliverCall ==
     /\ IsEvent("DeliverCall") /\ Ev.m \in Allocated
     /\ budget' = [budget EXCEPT ![Ev.m] = @ + 1]
-    /\ sc' = sc \cup {[c |-> Ev.c, s |-> Ev.m.s, m |-> Ev.m, st |-> "alloc"]}
-    /\ UNCHANGED <<counter, dl, handlers, ctxDone, removed, pc, queue, cur, seen, ninv, stale, acc, chkOn, regP, canP>>
+    /\ sc' = sc \cup {[c |-> Ev.c, s |-> Ev.m.s, m |-> Ev.m, st |-> "alloc", fail |-> FALSE]}
+    /\ UNCHANGED <<counter, dl, handlers, ctxDone, removed, pc, queue, cur, seen, ninv, stale, acc, chkOn, regP, canP, book>>
 TDeliverRet ==
     /\ IsEvent("DeliverRet")
     /\ \E p \in sc : p.c = Ev.c /\ Finished(p) /\ sc' = sc \ {p}
@@ -143,7 +148,7 @@ TDeliverRet ==
 TTick ==
     /\ IsEvent("Tick")
     /\ budget' = [m \in Msgs |-> IF m \in Allocated THEN budget[m] + 1 ELSE budget[m]]
-    /\ UNCHANGED <<counter, dl, handlers, ctxDone, removed, pc, queue, cur, seen, ninv, stale, acc, chkOn, regP, canP, sc>>
+    /\ UNCHANGED <<counter, dl, handlers, ctxDone, removed, pc, queue, cur, seen, ninv, stale, acc, chkOn, regP, canP, sc, book>>
 
 ---- \* handler function
 TInvokeStart ==
@@ -164,7 +169,7 @@ TChk ==
                THEN UNCHANGED <<pc, cur>>
                ELSE /\ pc' = [pc EXCEPT ![h] = "checked"]
                     /\ cur' = [cur EXCEPT ![h] = Head(queue[h])]
-    /\ UNCHANGED <<counter, budget, dl, handlers, ctxDone, removed, seen, ninv, stale, acc, chkOn, regP, canP, sc>>
+    /\ UNCHANGED <<counter, budget, dl, handlers, ctxDone, removed, seen, ninv, stale, acc, chkOn, regP, canP, sc, book>>
 
 ---- \* observations
 TObsQueue ==
@@ -190,7 +195,7 @@ TObsHandlers ==
           /\ handlers' = obs
           /\ removed' = [h \in Handlers |-> removed[h] \/ h \in gone]
           /\ pc' = [h \in Handlers |-> IF h \in gone /\ Lifecycle = "inline" THEN "exited" ELSE pc[h]]
-    /\ UNCHANGED <<counter, budget, dl, ctxDone, queue, cur, seen, ninv, stale, acc, chkOn, regP, canP, sc>>
+    /\ UNCHANGED <<counter, budget, dl, ctxDone, queue, cur, seen, ninv, stale, acc, chkOn, regP, canP, sc, book>>
 
 ---- \* silent steps
 \* asynchronous publications (retransmission goroutines) use only what a Tick granted:
